@@ -116,6 +116,8 @@ Values(e) ==
   /\ e.dsigns_tail = e.expected_tail
   \* the regulariser actually applied is  const + prop * max|diag|
   /\ e.static_reg => UlpWithin(e.eps, e.eps_obs, 2)
+  \* the LDL engine substitutes tiny pivots as the settings say (threshold eps, replacement delta), where the engine shows it
+  /\ e.ldl_reg_known => (FSame(e.ldl_eps, e.set_eps) /\ FSame(e.ldl_delta, e.set_delta))
   \* eliminating the auxiliary variables gives the operator that maps z to s (symmetric cones)
   /\ \A k \in 1..Len(e.hz) : FLe(e.hz[k][1], e.hz[k][2])
   \* ... and, entry by entry, the operator the cones themselves apply (mul_Hs) - every cone type, expanded or not
